@@ -504,6 +504,13 @@ def heap_c16(tier, seed, params):
     out = []
     for kind in HEAP_KINDS:
         for n in HEAP_NS:
+            if n <= 33:
+                # boxed collect: the one request for the whole array fails (child process); a source longer than N by
+                # several items (at most N + 1 are pulled, also for zero-sized items); TryFrom<Vec> from a Vec with spare capacity
+                out.append("op=boxed_collect n=%d l=%d kind=%s fault=alloc:0" % (n, n, kind))
+                out.append("op=boxed_collect n=%d l=%d kind=%s fault=none" % (n, n + 5, kind))
+                for l in sorted(set([n, n + 1])):
+                    out.append("op=vec_try_into n=%d l=%d cap=%d kind=%s" % (n, l, l + 3, kind))
             for op in ("boxed_generate", "default_boxed"):
                 out.append("op=%s n=%d kind=%s fault=none" % (op, n, kind))
                 out.append("op=%s n=%d kind=%s fault=alloc:0" % (op, n, kind))
@@ -546,6 +553,17 @@ def heap_c15(tier, seed, params):
     for op in ("big_default_boxed", "big_boxed_generate", "big_box_arr", "big_boxed_collect", "big_into_vec",
                "big_elems_boxed_generate", "big_elems_default_boxed", "big_elems16_boxed_generate", "big_elems_box_map"):
         out.append("op=%s" % op)
+    return out
+
+
+def heap_c07(tier, seed, params):
+    """boxed collect for every element kind (sizes 0, 3, 4, 8; drop-tracked; zero-sized drop-counted): sources of
+    0, N-1, N, N+1 and N+5 items from `iter::from_fn` (hint (0, None)): Ok iff exactly N, at most N + 1 items pulled"""
+    out = []
+    for kind in HEAP_KINDS:
+        for n in (0, 1, 2, 3, 4, 5, 8, 16, 17, 33):
+            for l in sorted(set([0, max(0, n - 1), n, n + 1, n + 5])):
+                out.append("op=boxed_collect n=%d l=%d kind=%s fault=none" % (n, l, kind))
     return out
 
 
